@@ -91,7 +91,13 @@ class MetaString(type):
             value = value.to_str()  # its text, not its size header
         info = cls._inspect_args(value)
         size = Int64._from_buffer(buffer, offset)
-        if info.size > size:
+        # what the text needs: size word, its bytes, the terminator (the
+        # room of a string created from a capacity is not a whole number
+        # of slots: a text that fits it is not refused)
+        needed = info.size
+        if isinstance(value, str):
+            needed = 8 + len(info.data) + 1
+        if needed > size:
             raise ValueError(
                 f"`{value}` does not fit in the {size - 8} bytes "
                 "reserved when the string was created"
